@@ -246,6 +246,7 @@ pub struct Style {
     pub comment_at: Option<usize>, // insert a comment at the n-th inter-token whitespace slot
     pub or_break: bool,         // line break after `or`
     pub list_break: bool,       // line breaks inside list literals / filters
+    pub list_comma_first: u8,   // 1: a space before every comma of a list literal, 2: the line break before the comma
     pub in_upper: bool,
     pub opneg_bang: bool,       // operator-level negation written "!exists" (true) or "not exists" (false)
     pub eol_comment: bool,      // `# c` at the end of every line
@@ -281,6 +282,7 @@ impl Default for Style {
             comment_at: None,
             or_break: false,
             list_break: false,
+            list_comma_first: 0,
             in_upper: false,
             opneg_bang: true,
             eol_comment: false,
@@ -351,6 +353,11 @@ impl<'a> Printer<'a> {
         }
         if self.st.upper_kw & KW_NULL != 0 && t == "null" {
             t = "NULL".into();
+        }
+        if self.st.list_comma_first > 0 {
+            if let V::List(_) = v {
+                t = t.replace(',', if self.st.list_comma_first == 1 { " , " } else { "\n , " }).replacen('[', "[ ", 1);
+            }
         }
         if self.st.list_break {
             if let V::List(_) = v {
